@@ -62,6 +62,8 @@ def main(argv):
         elif not r.get("detected"):
             if meta.get("known_missed"):
                 print("  (%s is documented as NOT caught: see its meta.json and DESIGN.md section 9)" % mid)
+            elif meta.get("quick_seed_dependent") and tier == "quick":
+                print("  (%s is documented as caught by quick for some VERIF_SEED values only: see its meta.json)" % mid)
             elif meta.get("expected_quick") == "miss" and tier == "quick":
                 print("  (%s is documented as caught by the thorough tier only)" % mid)
             else:
